@@ -21,21 +21,24 @@ namespace zoo {
 
    void guarded(Ctx& c, std::string& out, const char* name, const std::function<std::string()>& f) { field(c, out, name, f); }
 
+   void build_row(Ctx& c, const Row& r)
+   {
+      c.current_row = r.name;
+      try {
+         r.build(c);
+      }
+      catch (const std::exception& e) {
+         // every part a row reads was supplied (unsupplied parts are read through refuses()/absent()), so an
+         // exception escaping a row is an accessor refusing to return what the node was built from
+         if (c.rep and not c.prop.empty())
+            c.violation(c.prop, c.current_row + ":unexpected-exception", std::string("an accessor of a supplied part threw: ") + e.what());
+         else if (c.prop.empty() and c.rep) c.rep->member("rows_that_threw", c.current_row + ": " + e.what());
+      }
+   }
+
    void build_all(Ctx& c)
    {
-      for (auto& r : rows()) {
-         c.current_row = r.name;
-         try {
-            r.build(c);
-         }
-         catch (const std::exception& e) {
-            // every part a row reads was supplied (unsupplied parts are read through refuses()/absent()), so an
-            // exception escaping a row is an accessor refusing to return what the node was built from
-            if (c.rep and not c.prop.empty())
-               c.violation(c.prop, c.current_row + ":unexpected-exception", std::string("an accessor of a supplied part threw: ") + e.what());
-            else if (c.prop.empty() and c.rep) c.rep->member("rows_that_threw", c.current_row + ": " + e.what());
-         }
-      }
+      for (auto& r : rows()) build_row(c, r);
       c.current_row = "constants-and-internals";
       register_constants_and_internals(c);
       ++c.round;
